@@ -3,6 +3,7 @@ import Nstd.Callback.LemmasFuel
 import Nstd.Callback.LemmasGhost
 import Nstd.Callback.LemmasTerm
 import Nstd.Callback.LemmasOrder
+import Nstd.Callback.LemmasArgs
 /-
   Property C12 — signals reach exactly the connected slots, safely under re-entrancy.
 
@@ -32,6 +33,9 @@ open Spec
     log of the model of Callback.cpp is the invocation log of the specification: an emission
     invokes, in connection order, exactly the connections made before the outermost emission of
     that signal in progress began and still live at their turn.
+    The log also holds the argument every slot received and a mark for the start (emitter variable,
+    signal, argument) and the return of every `emit` call, so the equality covers the arguments and
+    the nesting structure of the emissions as well.
     The log labels an invocation by the harness index the listener object carries in its `id` field
     (`Run.lIdx`), as the C++ harness does, not by the object id: a listener re-created in the same
     variable (`newL`) is a new object id in both machines and logs under the same index as its
@@ -42,6 +46,33 @@ theorem emit_refines (P : Prog) (ne nl fuel : Nat) (ops : List Action) :
     (runOps machine P fuel (Run.init State.fresh ne nl) ops).log =
       (runOps Spec.machine P fuel (Run.init SState.fresh ne nl) ops).log :=
   (runOps_rel P fuel ops (init_rel ne nl)).log
+
+/-- **Argument forwarding.**  `emit(signal, arg0, …)` takes its arguments by value of the declared
+    parameter types and its loop hands them to every slot it invokes (Callback.hpp:42-59; in the
+    evaluator the argument `v` is a parameter of the loop task, the log records every slot
+    invocation with the argument received and the start / return of every `emit` call with the
+    argument given).  For every program — emissions nested to any depth, on the same or on other
+    emitters, with other arguments; slots that connect, disconnect, destroy — and every fuel: reading
+    the log with the stack of the arguments of the `emit` calls in progress (`fwd`), every slot
+    invocation happens inside an `emit` call and receives exactly the argument given to that call
+    (the innermost one in progress: everything a slot starts has returned before the loop goes on),
+    unchanged by whatever ran in between, and every `emit` call returns exactly once (also when the
+    fuel runs out).  With `emit_refines` (the logs of model and specification are equal, arguments and
+    `emit` marks included) the same holds for the specification.
+    Not modelled: parameter types that are references (`A = T&`: all slots then share the caller's
+    object; exercised by the `refargs` line of the correspondence run only). -/
+theorem args_forwarded (P : Prog) (ne nl fuel : Nat) (ops : List Action) :
+    fwd [] (runOps machine P fuel (Run.init State.fresh ne nl) ops).log.reverse = some [] := by
+  obtain ⟨new, h, hf⟩ := runOps_fwd machine P fuel ops (Run.init State.fresh ne nl)
+  rw [h]
+  simpa [Run.init] using hf []
+
+/-- ... and inside one emission: whatever the loop of an emission with argument `v` adds to the log
+    (from any state, any fuel, any machine state) is accepted under `v` and leaves the stack as it was -/
+theorem args_forwarded_loop (P : Prog) (fuel : Nat) (r : Run State) (fid : Nat) (idx : Option Nat) (v : Nat) :
+    ∃ new, (exec machine P fuel r (.loop fid idx v)).log = new ++ r.log ∧
+      ∀ st, fwd (v :: st) new.reverse = some (v :: st) :=
+  (exec_fwd machine P fuel).2 r fid idx v
 
 /-- the same from any pair of related states in the middle of arbitrarily nested emissions
     (`K` = the loops in progress), for any script -/
@@ -55,9 +86,9 @@ theorem emit_refines_nested (P : Prog) (fuel : Nat) (K : MStack) (script : List 
 /-- the emission loop itself: from related states the rest of an emission produces the same log
     and ends in related states -/
 theorem emit_refines_loop (P : Prog) (fuel : Nat) (K : MStack) (fid : Nat) (idx : Option Nat) (eg : Nat × Nat) (snap : List Nat)
-    (r₁ : Run State) (r₂ : Run SState) (h : RunRel Sim (((fid, idx), (eg, snap)) :: K) r₁ r₂) :
-    (exec machine P fuel r₁ (.loop fid idx)).log = (exec Spec.machine P fuel r₂ (.loop eg snap)).log := by
-  obtain ⟨_, _, hr⟩ := (exec_sim simOK P fuel).2 K fid idx eg snap r₁ r₂ h
+    (v : Nat) (r₁ : Run State) (r₂ : Run SState) (h : RunRel Sim (((fid, idx), (eg, snap)) :: K) r₁ r₂) :
+    (exec machine P fuel r₁ (.loop fid idx v)).log = (exec Spec.machine P fuel r₂ (.loop eg snap v)).log := by
+  obtain ⟨_, _, hr⟩ := (exec_sim simOK P fuel).2 K fid idx eg snap v r₁ r₂ h
   exact hr.log
 
 /-- **Safety.**  No run ever touches freed memory: the evaluator never invokes a slot of a
@@ -277,16 +308,24 @@ theorem node_is_ghost (P : Prog) (ne nl fuel : Nat) (ops : List Action) :
 
 def d18 : Prog :=
   { script := fun l s k => if l = 0 ∧ s = 0 ∧ k = 0 then
-      [.disconnect 0 0 0 0, .connect 0 0 0 0, .disconnect 0 0 0 0, .connect 0 0 1 1, .emit 0 0] else [] }
+      [.disconnect 0 0 0 0, .connect 0 0 0 0, .disconnect 0 0 0 0, .connect 0 0 1 1, .emit 0 0 4] else [] }
 
 def d18ops : List Action :=
-  [.connect 0 0 0 0, .connect 0 0 1 0, .emit 0 0, .emit 0 0, .delL 1, .newL 1, .connect 0 0 1 1, .emit 0 0, .delE 0]
+  [.connect 0 0 0 0, .connect 0 0 1 0, .emit 0 0 3, .emit 0 0 5, .delL 1, .newL 1, .connect 0 0 1 1, .emit 0 0 6, .delE 0]
 
 example : (runOps machine d18 20 (Run.init State.fresh 1 2) d18ops).log.reverse =
-    [(0, 0), (1, 0), (1, 0), (1, 0), (1, 1), (1, 1)] := by decide
+    [.emitBegin 0 0 3, .call 0 0 3, .emitBegin 0 0 4, .call 1 0 4, .emitEnd, .call 1 0 3, .emitEnd,
+     .emitBegin 0 0 5, .call 1 0 5, .call 1 1 5, .emitEnd, .emitBegin 0 0 6, .call 1 1 6, .emitEnd] := by decide
 
 example : (runOps Spec.machine d18 20 (Run.init SState.fresh 1 2) d18ops).log.reverse =
-    [(0, 0), (1, 0), (1, 0), (1, 0), (1, 1), (1, 1)] := by decide
+    [.emitBegin 0 0 3, .call 0 0 3, .emitBegin 0 0 4, .call 1 0 4, .emitEnd, .call 1 0 3, .emitEnd,
+     .emitBegin 0 0 5, .call 1 0 5, .call 1 1 5, .emitEnd, .emitBegin 0 0 6, .call 1 1 6, .emitEnd] := by decide
+
+/-- `fwd` is not trivially true: the D18 run is accepted, the same log with one argument changed or
+    with an invocation outside every emission is rejected -/
+example : fwd [] (runOps machine d18 20 (Run.init State.fresh 1 2) d18ops).log.reverse = some [] := by decide
+example : fwd [] [.emitBegin 0 0 3, .call 0 0 3, .emitBegin 0 0 4, .call 1 0 3, .emitEnd, .emitEnd] = none := by decide
+example : fwd [] [.emitBegin 0 0 3, .emitEnd, .call 0 0 3] = none := by decide
 
 /-- the hypothesis of `emit_refines_nested` is met by the initial states -/
 example : RunRel Sim [] (Run.init State.fresh 3 3) (Run.init SState.fresh 3 3) := init_rel 3 3
@@ -318,6 +357,6 @@ def dangling : State :=
     listeners := fun _ => none, frames := [], nextNode := 1, fault := false }
 
 example : (delEmitter 0 dangling).fault = true := rfl
-example : (exec machine d18 5 (Run.init dangling 1 1) (.acts [.emit 0 0])).bad = true := rfl
+example : (exec machine d18 5 (Run.init dangling 1 1) (.acts [.emit 0 0 0])).bad = true := rfl
 
 end Nstd.Callback
